@@ -11,6 +11,20 @@ use quote::quote;
  * Generated "variant_names" enum:  pub enum AnEnum { where_, self_, Other(String), }
  * Generated serialize line: "AnEnum::where_ => "where","
  */
+/// The Rust identifier for an enum value: normalize first, then escape, so that the result is
+/// never a keyword (`self` becomes `Self` under Rust normalization) and never the name of the
+/// catch-all `Other(String)` variant.
+fn variant_ident_name(value: &str, normalization: &crate::normalization::Normalization) -> String {
+    let normalized = normalization.enum_variant(value);
+    let safe_name = super::shared::keyword_replace(normalized.as_ref());
+
+    if safe_name == "Other" {
+        "Other_".to_owned()
+    } else {
+        safe_name.into_owned()
+    }
+}
+
 pub(super) fn generate_enum_definitions<'a, 'schema: 'a>(
     all_used_types: &'a crate::query::UsedTypes,
     options: &'a GraphQLClientCodegenOptions,
@@ -33,8 +47,7 @@ pub(super) fn generate_enum_definitions<'a, 'schema: 'a>(
             .variants
             .iter()
             .map(|v| {
-                let safe_name = super::shared::keyword_replace(v.as_str());
-                let name = normalization.enum_variant(safe_name.as_ref());
+                let name = variant_ident_name(v.as_str(), normalization);
                 let name = Ident::new(&name, Span::call_site());
 
                 quote!(#name)
@@ -47,8 +60,7 @@ pub(super) fn generate_enum_definitions<'a, 'schema: 'a>(
             .variants
             .iter()
             .map(|v| {
-                let safe_name = super::shared::keyword_replace(v);
-                let name = normalization.enum_variant(safe_name.as_ref());
+                let name = variant_ident_name(v.as_str(), normalization);
                 let v = Ident::new(&name, Span::call_site());
 
                 quote!(#name_ident::#v)
